@@ -466,16 +466,16 @@ class Body:
                         pl = st[1]
                         if not pl[1]:
                             d[pl[0]].append(("stmt", i, j, st[2]))
-                        else:
+                        elif pl[1][0] != "*":   # a write through a dereference does not redefine the pointer local
                             d[pl[0]].append(("part", i, j, pl, st[2]))
-                    elif st[0] == "D":
+                    elif st[0] == "D" and (not st[1][1] or st[1][1][0] != "*"):
                         d[st[1][0]].append(("part", i, j, st[1], ["setdisc", st[2]]))
                 t = blk["t"]
                 if t[0] == "call":
                     pl = t[3]
                     if not pl[1]:
                         d[pl[0]].append(("call", i, Call(t, self.files, i)))
-                    else:
+                    elif pl[1][0] != "*":
                         d[pl[0]].append(("part", i, -1, pl, ["call"]))
                 elif t[0] == "yield":
                     pl = t[3]
